@@ -11,7 +11,7 @@ from harness import tlc as T
 from harness.core import canon
 
 ND, NS = 2, 2
-NFOLDS = {"n": 2}
+NFOLDS = {"n": 2, "presplit": False, "features": None}
 N_INST = 8
 CALLS = {"n": 0, "crash": 0, "log": []}
 
@@ -39,20 +39,22 @@ class SigClassifier(BaseClassifier):
             raise Boom("injected failure at call %d" % CALLS["n"])
 
     def fit(self, X, y):
-        ids = [int(round(X.iloc[i, 0].iloc[0])) for i in range(len(X))]
+        ids = [int(round(X["dim_0"].iloc[i].iloc[0])) for i in range(len(X))]
+        self.cols_ = list(X.columns)
         self._tick(("fit", self.sid, tuple(ids)))
         # an object that is fitted again (instead of a fresh clone per fold) betrays itself in its predictions
         self.nfit_ = getattr(self, "nfit_", 0) + 1
         # ... and so does one that is not given exactly the feature columns (all columns but the target)
-        self.sig_ = sum(ids) + (self.nfit_ - 1) + (0 if list(X.columns) == ["dim_0", "dim_1"] else 1)
+        self.sig_ = sum(ids) + (self.nfit_ - 1) + (0 if list(X.columns) == (NFOLDS["features"] or ["dim_0", "dim_1"]) else 1)
         self.classes_ = np.unique(y)
         self._is_fitted = True
         return self
 
     def predict(self, X):
-        ids = [int(round(X.iloc[i, 0].iloc[0])) for i in range(len(X))]
+        ids = [int(round(X["dim_0"].iloc[i].iloc[0])) for i in range(len(X))]
         self._tick(("predict", self.sid, tuple(ids)))
-        bad = 0 if list(X.columns) == ["dim_0", "dim_1"] else 1
+        # the feature columns of the task, in the task's order, at fit and at predict alike
+        bad = 0 if list(X.columns) == (NFOLDS["features"] or ["dim_0", "dim_1"]) == self.cols_ else 1
         return np.array([(self.sig_ * 7 + self.sid * 3 + i + bad) % 5 for i in ids])
 
 
@@ -66,7 +68,8 @@ def dataset(d):
     # the target is not the last column and the row labels are not 0..n-1: records identify instances by fold position
     return pd.DataFrame({"dim_0": [pd.Series([float(i)] * 4) for i in ids], "class_val": [i % 2 for i in ids],
                          "dim_1": [pd.Series([1.0, 2.0]) for _ in ids]},
-                        index=[50 + 3 * ((i * 5) % N_INST) for i in range(N_INST)])
+                        index=(["test" if i % 3 == 1 else "train" for i in range(N_INST)] if NFOLDS["presplit"]
+                               else [50 + 3 * ((i * 5) % N_INST) for i in range(N_INST)]))
 
 
 def honest(d, s, train_pos, pos):
@@ -77,12 +80,17 @@ def honest(d, s, train_pos, pos):
 
 def make_cv():
     from sklearn.model_selection import KFold, ShuffleSplit
+    if NFOLDS["presplit"]:       # pre-split data: rows labelled 'train' / 'test' (interleaved here), one fold
+        from sktime.series_as_features.model_selection import PresplitFilesCV
+        return PresplitFilesCV()
     if NFOLDS["n"] == 1:
         return ShuffleSplit(n_splits=1, test_size=0.5, random_state=0)     # a single split
     return KFold(n_splits=NFOLDS["n"])
 
 
 def folds():
+    if NFOLDS["presplit"]:       # by definition, not by asking the splitter
+        return [([i for i in range(N_INST) if i % 3 != 1], [i for i in range(N_INST) if i % 3 == 1])]
     return [(list(a), list(b)) for a, b in make_cv().split(np.arange(N_INST))]
 
 
@@ -97,7 +105,7 @@ def do_run(path, o, crash):
     Clf = make_classifier()
     CALLS.update(n=0, crash=crash, log=[])
     datasets = [RAMDataset(dataset(d), name="d%d" % d) for d in range(1, ND + 1)]
-    tasks = [TSCTask(target="class_val") for _ in datasets]
+    tasks = [TSCTask(target="class_val", features=NFOLDS["features"]) for _ in datasets]
     strategies = [TSCStrategy(Clf(sid=s), name="s%d" % s) for s in range(1, NS + 1)]
     res = HDDResults(path=path)
     orch = Orchestrator(tasks=tasks, datasets=datasets, strategies=strategies, cv=make_cv(), results=res)
@@ -250,9 +258,12 @@ def run(ctx):
     for i, b in enumerate(behs):
         runs = b["runs"]
         NFOLDS["n"] = b["nf"]
+        NFOLDS["presplit"] = bool(b["nf"] == 1 and i % 2 == 1)
+        NFOLDS["features"] = ["dim_1", "dim_0"] if i % 3 == 2 else None      # explicit feature list in another order than the data's
         obs = observe(runs, work, i)
         ctx.evaluations += 1
-        sc = {"runs": [{"o": x["o"], "crash": x["crash"]} for x in runs], "folds": b["nf"]}
+        sc = {"runs": [{"o": x["o"], "crash": x["crash"]} for x in runs], "folds": b["nf"], "presplit": NFOLDS["presplit"],
+              "features": NFOLDS["features"]}
         if isinstance(obs, dict):
             ctx.violation(sc, "machinery/crash: " + obs["crash"])
             continue
@@ -317,6 +328,8 @@ def replay(ctx, doc):
     work = os.path.join(ctx.work, "stores")
     os.makedirs(work, exist_ok=True)
     NFOLDS["n"] = sc.get("folds", 2)
+    NFOLDS["presplit"] = bool(sc.get("presplit"))
+    NFOLDS["features"] = sc.get("features")
     obs = observe(sc["runs"], work, 0)
     print(canon(obs)[:3000])
     print("VIOLATION property=C19 replay=%s (re-run ./check C19 for the judged comparison)" % ctx.replay)
